@@ -244,6 +244,29 @@ def run(ctx):
         got, want = parse_result(txt) if st == "OK" else None, model(n.rstrip("."), True)
         if got != want:
             ctx.violation("C16|trailing-dot-not-treated-as-junk", "name %r classified %s, with the trailing '.' removed the grammar says %s" % (n, got, want), info={"name": n})
+    # names with many components that are neither numeric nor recognised: the work must stay proportional to the length
+    deep = []
+    for comp in (b"x", b"bak", b"old", b"foo", b"a1", b"Xy"):
+        for k in (12, 18, 22, 26, 30, 40, 60):
+            for base in (b"a", b"syslog", b"wtmp", b"wtmp.gz", b"x.log.xz"):
+                nm = base + (b"." + comp) * k
+                if len(nm) <= 255:
+                    deep.append(nm)
+    deep.sort(key=len)
+    r, out = core.run([h, "classify", "text"], core.base_env(), stdin=b"".join(n.hex().encode() + b"\n" for n in deep), timeout=ctx.pick(60, 120)), None
+    lines = r.out.decode("utf-8", "replace").splitlines()
+    ctx.count("names with 12..60 unrecognised components", len(deep))
+    if r.timed_out or len(lines) != len(deep):
+        stuck = deep[len(lines)] if len(lines) < len(deep) else b"?"
+        ctx.violation("C16|classifier-did-not-finish|many-unrecognised-components", "classification stopped answering at %r (%d of %d names answered within the limit)" % (
+            stuck[:60], len(lines), len(deep)), info={"name": stuck.decode("latin-1")})
+    for n, ln in zip(deep, lines):
+        ctx.evaluated(1, "deep:%d" % len(n))
+        p_ = ln.split("\t")
+        if p_[0] != "OK":
+            ctx.violation("C16|panic-or-failure|many-unrecognised-components", "classification of %r: %s" % (n[:60], p_[0]), info={"name": n.decode("latin-1")})
+        elif int(p_[1]) > 1_000_000:
+            ctx.violation("C16|slow|many-unrecognised-components", "classification of %r took %s us" % (n[:60], p_[1]), info={"name": n.decode("latin-1")})
     # arbitrary strings: termination, no panic
     arb = [b".", b"..", b"...", b"." * 300, b"", b"~", b"~~~~", b".~.~.", b"a" * 4096, b"a." * 2000, b"." + b"1." * 1500 + b"log",
            b"\xff\xfe.log", b"wtmp.\xff", b"\xff.gz", b"log.\x00", b"x.gz.gz.gz.gz.gz.gz", b"1.2.3.4.5.6.7.8.9", b"-1", b"+1.log", b"x.9999999999999999999"]
